@@ -80,14 +80,50 @@ Qed.
 
 (* ---------- layer (c): the meaning of a translated program ---------- *)
 Definition task_inputs (t : ext_task) : list pred := ug_input_predicates (et_user_guide t).
-(* the vocabulary on which a program's external behaviour is read: the predicates of the program
-   and the PUBLIC predicates (input and output) declared in the user guide.  An output predicate
-   that does not occur in the program is part of the vocabulary: an external stable model gives it
-   the empty extent.  (Before the audit - finding A4 - the vocabulary was program_preds P ++
-   inputs, so a declared output predicate missing from P was cut away by [restrict] and the
-   behavioural difference "P never produces it" was invisible: finding F17.) *)
+(* the vocabulary on which a program's external behaviour is read: the predicates of the program,
+   the input predicates and the output predicates of the user guide THAT OCCUR IN THE TASK (on either
+   side: task_occurring_predicates).  An output predicate that does not occur in the program but on
+   the other side is part of the vocabulary: an external stable model gives it the empty extent.
+   (Before the audit - finding A4 - the vocabulary was program_preds P ++ inputs, so a declared
+   output predicate missing from P was cut away by [restrict] and the behavioural difference "P
+   never produces it" was invisible: finding F17.)
+   A declared output predicate that occurs on NEITHER side is outside the vocabulary of both sides:
+   no program of the task mentions it, no emitted formula mentions it (since /repo 18b2e85 it gets no
+   completed definition either), and whether an interpretation refutes a problem does not depend on
+   it - so an interpretation is judged on the rest.  [ext_voc_public] is the vocabulary with ALL
+   public predicates; the two readings coincide on every interpretation that is empty on the unused
+   output predicates ([ext_stable_public_iff] below), in particular on every external stable model
+   in the public reading. *)
+Definition occurring_outputs (t : ext_task) : list pred :=
+  filter (fun q => memb pred_dec q (task_occurring_predicates t)) (ug_output_predicates (et_user_guide t)).
 Definition ext_voc (t : ext_task) (P : program) : list pred :=
+  program_preds P ++ task_inputs t ++ occurring_outputs t.
+Definition ext_voc_public (t : ext_task) (P : program) : list pred :=
   program_preds P ++ ug_public_predicates (et_user_guide t).
+
+Lemma in_occurring_outputs t q :
+  In q (occurring_outputs t) <-> In q (ug_output_predicates (et_user_guide t)) /\ In q (task_occurring_predicates t).
+Proof.
+  unfold occurring_outputs. rewrite filter_In. destruct (memb_spec pred_dec q (task_occurring_predicates t)); intuition congruence.
+Qed.
+Lemma in_ext_voc t P q :
+  In q (ext_voc t P) <->
+  In q (program_preds P) \/ In q (task_inputs t) \/
+  (In q (ug_output_predicates (et_user_guide t)) /\ In q (task_occurring_predicates t)).
+Proof. unfold ext_voc. rewrite !in_app_iff, in_occurring_outputs. tauto. Qed.
+Lemma in_ext_voc_public t P q :
+  In q (ext_voc_public t P) <->
+  In q (program_preds P) \/ In q (task_inputs t) \/ In q (ug_output_predicates (et_user_guide t)).
+Proof.
+  unfold ext_voc_public, ug_public_predicates, task_inputs. rewrite in_app_iff, (in_iset_extend pred_dec). tauto.
+Qed.
+Lemma ext_voc_incl_public t P : incl (ext_voc t P) (ext_voc_public t P).
+Proof. intros q. rewrite in_ext_voc, in_ext_voc_public. tauto. Qed.
+(* the predicates of either program of the task occur in the task *)
+Lemma program_occurring t : incl (program_preds (et_program t)) (task_occurring_predicates t).
+Proof. intros q Hq. unfold task_occurring_predicates. apply (in_iset_extend pred_dec). right. exact Hq. Qed.
+Lemma spec_program_occurring t L : et_specification t = inl L -> incl (program_preds L) (task_occurring_predicates t).
+Proof. intros Hs q Hq. unfold task_occurring_predicates. rewrite Hs. apply (in_iset_extend pred_dec). left. exact Hq. Qed.
 
 (* "M is an external stable model of P": the restriction of M to P's predicates and the public
    predicates is a stable model (reference semantics) of P - its placeholders read as FI reads
@@ -220,39 +256,39 @@ Proof.
   destruct (completion (rp_theory (task_placeholders t) G) (task_inputs t)) as [D|] eqn:HD; [|discriminate].
   cbv zeta in Htr.
   set (outs := ug_output_predicates (et_user_guide t)) in *.
-  assert (E1 : tvalid FI M th <-> (forall f, In f (D ++ missing_output_definitions outs D) -> cvalid FI M f)).
+  set (occ := task_occurring_predicates t) in *.
+  assert (E1 : tvalid FI M th <-> (forall f, In f (D ++ missing_output_definitions outs occ D) -> cvalid FI M f)).
   { injection Htr as <-. unfold tvalid. destruct (et_simplify t); [apply simp_theory_sound|tauto]. }
   rewrite E1. clear E1 Htr th.
-  assert (E2 : (forall f, In f (D ++ missing_output_definitions outs D) -> cvalid FI M f) <->
+  assert (E2 : (forall f, In f (D ++ missing_output_definitions outs occ D) -> cvalid FI M f) <->
                (forall f, In f D -> cvalid FI M f) /\
-               (forall q, In q outs -> ~ In q (program_preds P) -> forall d, List.length d = parity q -> ~ M (psym q) d)).
-  { pose proof (missing_outputs_valid FI M outs D) as Hmv.
+               (forall q, In q outs -> In q occ -> ~ In q (program_preds P) -> forall d, List.length d = parity q -> ~ M (psym q) d)).
+  { pose proof (missing_outputs_valid FI M outs occ D) as Hmv.
     assert (Hq : forall q, In q outs -> (~ In q (theory_predicates D) <-> ~ In q (program_preds P))).
     { intros q Hq. rewrite (output_in_completion t P G D q Hio Hts HD Hq). tauto. }
     split.
     - intros H. split.
       + intros f Hf. apply H, in_or_app. auto.
-      + intros q Hq' Hn. apply (proj1 Hmv); [|exact Hq'|apply (Hq q Hq'); exact Hn].
+      + intros q Hq' Hoc Hn. apply (proj1 Hmv); [|exact Hq'|exact Hoc|apply (Hq q Hq'); exact Hn].
         intros f Hf. apply H, in_or_app. auto.
     - intros [H1 H2] f Hf. apply in_app_or in Hf. destruct Hf as [Hf|Hf]; [auto|].
-      revert f Hf. apply (proj2 Hmv). intros q Hq' Hn. apply H2; [exact Hq'|apply (Hq q Hq'); exact Hn]. }
+      revert f Hf. apply (proj2 Hmv). intros q Hq' Hoc Hn. apply H2; [exact Hq'|exact Hoc|apply (Hq q Hq'); exact Hn]. }
   rewrite E2. clear E2.
   set (m := task_placeholders t) in *. set (S := ext_voc t P).
   assert (Hincl : incl (theory_predicates (rp_theory m G)) S).
   { intros q Hq. rewrite rp_theory_predicates in Hq. apply (tau_star_predicates P G q Hts) in Hq.
-    unfold S, ext_voc. apply in_or_app. left; exact Hq. }
+    unfold S. apply in_ext_voc. left; exact Hq. }
   rewrite (completion_restrict _ _ _ FI M S HD Hincl).
   unfold ext_stable_full. fold m. fold S.
   (* the interpretation is confined to the program's predicates and the inputs as soon as it is
-     empty on the missing output predicates *)
-  assert (Hconf : (forall q, In q outs -> ~ In q (program_preds P) -> forall d, List.length d = parity q -> ~ M (psym q) d) ->
+     empty on the missing output predicates of the vocabulary *)
+  assert (Hconf : (forall q, In q outs -> In q occ -> ~ In q (program_preds P) -> forall d, List.length d = parity q -> ~ M (psym q) d) ->
                   forall p d, restrict S M p d ->
                     In (mkpred p (List.length d)) (program_preds (ph_program FI m P)) \/ In (mkpred p (List.length d)) (task_inputs t)).
-  { intros He p d [HM Hin]. unfold S, ext_voc in Hin. apply in_app_or in Hin. rewrite ph_program_preds.
-    destruct Hin as [Hin|Hin]; [left; exact Hin|].
-    unfold ug_public_predicates in Hin. apply in_iset_extend in Hin. destruct Hin as [Hin|Hin]; [right; exact Hin|].
+  { intros He p d [HM Hin]. unfold S in Hin. apply in_ext_voc in Hin. rewrite ph_program_preds.
+    destruct Hin as [Hin|[Hin|[Hin Hoc]]]; [left; exact Hin|right; exact Hin|].
     destruct (in_dec pred_dec (mkpred p (List.length d)) (program_preds P)) as [Hp|Hp]; [left; exact Hp|].
-    exfalso. exact (He _ Hin Hp d eq_refl HM). }
+    exfalso. exact (He _ Hin Hoc Hp d eq_refl HM). }
   assert (Hfages : (forall p d, restrict S M p d ->
                       In (mkpred p (List.length d)) (program_preds (ph_program FI m P)) \/ In (mkpred p (List.length d)) (task_inputs t)) ->
                    ((forall f, In f D -> cvalid FI (restrict S M) f) <->
@@ -267,11 +303,11 @@ Proof.
   split.
   - intros [HDv He]. apply (Hfages (Hconf He)). exact HDv.
   - intros Hst.
-    assert (He : forall q, In q outs -> ~ In q (program_preds P) -> forall d, List.length d = parity q -> ~ M (psym q) d).
-    { intros q Hq Hn. apply (ext_stable_nonhead_empty t FI M P q Hst).
+    assert (He : forall q, In q outs -> In q occ -> ~ In q (program_preds P) -> forall d, List.length d = parity q -> ~ M (psym q) d).
+    { intros q Hq Hoc Hn. apply (ext_stable_nonhead_empty t FI M P q Hst).
       - intros r Hr Hh. apply Hn. apply in_program_preds. exists r. split; [exact Hr|]. apply in_rule_preds. left. exact Hh.
       - intros Hi. exact (Hio q Hi Hq).
-      - unfold ext_voc. apply in_or_app. right. unfold ug_public_predicates. apply in_iset_extend. right. exact Hq. }
+      - apply in_ext_voc. right. right. split; [exact Hq|exact Hoc]. }
     split; [|exact He]. apply (Hfages (Hconf He)). exact Hst.
 Qed.
 
